@@ -136,6 +136,12 @@ def units(tier):
                   harness=H("  Index in_a, in_b; Filtration_value in_fb; input_size = nondet_size();", "has_larger_input(in_a, in_b, in_fb);")
                   .replace("int main", "size_t nondet_size(void);\nint main"),
                   desc="has_larger_input(a,b,fb) == ((input[a], a) > (fb, b)) lexicographically; reads only input[a]; writes nothing"))
+    U.append(Unit("rect.has_larger_input.double", "C14", [fn_input(), fn_hl(C_HL_REAL.replace("a < input_size && b < input_size && a != b", "a < input_size && b < input_size && a != b && !__CPROVER_isnand(fb) && !__CPROVER_isnand(input_p[a])"),
+                                                                           canary=(r"return a > b;", "return a < b;"))],
+                  enforce="has_larger_input", includes=["c14_glue.h"], defines=["REAL_INPUT", "FV_DOUBLE"], inputs=["in_a", "in_b", "in_fb"],
+                  harness=H("  Index in_a, in_b; Filtration_value in_fb; input_size = nondet_size();", "has_larger_input(in_a, in_b, in_fb);")
+                  .replace("int main", "size_t nondet_size(void);\nint main"),
+                  desc="has_larger_input with Filtration_value = double (the instantiation the library uses), non-NaN values: the same strict order on (value, index)"))
     U.append(Unit("rect.has_larger_input.total_order", "C14", [fn_input(), fn_hl(C_HL_REAL)], no_enforce=True,
                   replace=["has_larger_input"], includes=["c14_glue.h"], defines=["REAL_INPUT"],
                   harness="""size_t nondet_size(void);
